@@ -60,7 +60,14 @@ func VerifH01UnionInPlace() {
 
 func verifOne(tag string) (*Container, *verifSet) {
 	t := verifChoice(tag+".typ", 3)
-	return verifMkContainer(tag, t, verifBound("array", 3), verifBound("runs", 2), verifBound("words", 1), 0)
+	if t != 2 && verifBound("near", 0) == 2 {
+		// kernels that convert to a bitmap and scan all of it: keep the
+		// symbolic values in one 128-value window at a container edge
+		verifNearBase = []int{0, bitmapN - 2}[verifChoice("near.base", 2)]
+	}
+	c, s := verifMkContainer(tag, t, verifBound("array", 3), verifBound("runs", 2), verifBound("words", 1), 0)
+	verifNearBase = -1
+	return c, s
 }
 
 func VerifH01Contains() {
